@@ -1299,6 +1299,17 @@ class Interp:
                         itv.pos += 1
                         yield itv.items[itv.pos - 1]
                 items = pull()
+            elif self.h.is_list(itv):
+                # a list is iterated by position over its *current* content (Python's list iterator): a body that removes or
+                # inserts elements while iterating skips or repeats elements exactly as it would at run time
+                def live(ref=itv):
+                    i = 0
+                    while i < len(self.h.items(ref)):
+                        i += 1
+                        yield self.h.items(ref)[i - 1]
+                        if i > 4096:
+                            raise AnalysisError('heap model: loop bound exceeded at line %d' % st.lineno)
+                items = live()
             else:
                 items = self.seq(itv)
             broke = False
